@@ -16,7 +16,7 @@ RULE = ("scenario = (items preloaded in the memcached model, client configuratio
         "END, VALUE lines, a lone CR at the end, empty values; multi-key replies; value sizes 0,1,4090..4100,8190..8194,"
         "100000; store/delete/incr/touch/version/flush lines; set_many/delete_many multi-line replies; stats (also "
         "cachedump ITEM lines and valueless STATs); raw_command with end tokens CRLF, END CRLF, LF CR LF END CR LF and "
-        "a token whose prefix occurs inside the body, and ERROR / CLIENT_ERROR / SERVER_ERROR lines sent in answer to raw_command with each of these end tokens (also one that ends the error line itself); plus Hypothesis-drawn values/keys; and the same calls after a history of 1-24 earlier fetches (empty, small, large values) on the same client object. Segmentations: every subset "
+        "a token whose prefix occurs inside the body, pipelines of several commands through one raw_command (replies that start with STORED / DELETED / OK / TOUCHED / a number and run on to the last command's end token), and ERROR / CLIENT_ERROR / SERVER_ERROR lines sent in answer to raw_command with each of these end tokens (also one that ends the error line itself); plus Hypothesis-drawn values/keys; and the same calls after a history of 1-24 earlier fetches (empty, small, large values) on the same client object. Segmentations: every subset "
         "of cut positions for streams <= 14 bytes (thorough 16); all 1-, 2- (and thorough 3-) cut segmentations for "
         "streams <= 64 bytes; all-single-byte; for long streams cuts at 4096k-1/4096k/4096k+1, in the last 8 bytes, "
         "and exact 4096-byte pieces. Oracle (metamorphic): result (value incl. type, or exception class) equals the "
@@ -236,6 +236,14 @@ def corpus(sizes=(0, 1, 4090, 4094, 4095, 4096, 4097, 4098, 8190, 8192, 8194, 10
                  cluster=b"12\nh1.example.com|10.0.0.1|11211 h2.example.com|10.0.0.2|11211\n",
                  expect=b"CONFIG cluster 0 65\r\n12\nh1.example.com|10.0.0.1|11211 h2.example.com|10.0.0.2|11211"))
     out.append(S({"op": "raw_command", "command": b"get big", "end": b"END\r\n"}, [(b"big", b"y" * 5000, 0)], expect=b"VALUE big 0 5000\r\n" + b"y" * 5000 + b"\r\n"))
+    # several commands sent through one raw_command: the reply starts with a one-line answer (STORED, DELETED, OK, TOUCHED,
+    # a number ...) and goes on until the end token of the last command
+    out.append(S({"op": "raw_command", "command": b"set k 0 0 1\r\nv\r\nget k", "end": b"END\r\n"}, [], expect=b"STORED\r\nVALUE k 0 1\r\nv\r\n"))
+    out.append(S({"op": "raw_command", "command": b"delete k\r\nget k j", "end": b"END\r\n"}, [(b"k", b"v", 0), (b"j", b"w", 0)], expect=b"DELETED\r\nVALUE j 0 1\r\nw\r\n"))
+    out.append(S({"op": "raw_command", "command": b"flush_all\r\nget k", "end": b"END\r\n"}, [(b"k", b"v", 0)], expect=b"OK\r\n"))
+    out.append(S({"op": "raw_command", "command": b"touch k 5\r\nincr n 2\r\ngets k", "end": b"END\r\n"}, [(b"k", b"v", 0), (b"n", b"40", 0)]))
+    out.append(S({"op": "raw_command", "command": b"delete nokey\r\nadd k 0 0 1\r\nx\r\nstats settings", "end": b"END\r\n"}, [(b"k", b"v", 0)]))
+    out.append(S({"op": "raw_command", "command": b"get k\r\nversion", "end": b"1.6.21\r\n"}, [(b"k", b"END\r\n", 0)]))
     # error lines where a reply with another end token was expected
     for end in (b"END\r\n", b"\n\r\nEND\r\n", b"\r\n", b"OR\r\n"):
         out.append(S({"op": "raw_command", "command": b"bogus", "end": end}, []))                                  # ERROR
